@@ -1,4 +1,5 @@
 INIT Init
 NEXT Next
 INVARIANT Emit
-INVARIANT SafeUnlessKnown
+INVARIANT AlwaysSafe
+INVARIANT UncheckedUnsafeOnlyWhenKnown
